@@ -11,7 +11,9 @@ UNITS = [
       functions=["secp256k1_dleq_verify", "secp256k1_dleq_challenge", "secp256k1_dleq_hash_point", "secp256k1_nonce_function_dleq_sha256_tagged", "secp256k1_scalar_negate", "secp256k1_scalar_add"],
       timeout=600, min_obl=300, unwind=40, replay=False, note="wiring of the three multiplications, infinity gate, challenge hash stream, scalar comparison"),
     U("C14.verify", ["C14", "C07"], "harness/C14/verify.c", "h_verify",
-      replace=XQ + ["secp256k1_dleq_verify", "secp256k1_scalar_inverse_var", "secp256k1_scalar_mul", "secp256k1_ecmult", "secp256k1_gej_add_ge_var"],
+      # gej_eq_x_var / gej_add_var / ge_set_gej are not called by the unchanged code; they are listed so that an edit which routes the final
+      # comparison through another group primitive stays decidable (oracle) and then fails "accepts only through the adaptor equation"
+      replace=XQ + ["secp256k1_dleq_verify", "secp256k1_scalar_inverse_var", "secp256k1_scalar_mul", "secp256k1_ecmult", "secp256k1_gej_add_ge_var", "secp256k1_gej_eq_x_var", "secp256k1_gej_add_var", "secp256k1_ge_set_gej"],
       assumed=XQ + ["secp256k1_scalar_inverse_var", "secp256k1_scalar_mul", "secp256k1_ecmult", "secp256k1_gej_add_ge_var"],
       functions=["secp256k1_ecdsa_adaptor_verify", "secp256k1_ecdsa_adaptor_sig_deserialize", "secp256k1_pubkey_load", "secp256k1_gej_neg", "secp256k1_scalar_set_b32"],
       timeout=600, min_obl=300, unwind=40, replay=False, note="all 162-byte strings, messages, key objects; dleq_verify replaced by its verdict summary (gate proved in C14.dleq_verify)"),
